@@ -310,6 +310,22 @@ fn dated_range(
     Some(range_start..=range_end)
 }
 
+/// Number of extra years around a date where the bounds of a range covering this date may be
+/// found, given that their offsets can move them that far away from their base date.
+fn offsets_years_margin(start_offset: &ds::DateOffset, end_offset: &ds::DateOffset) -> i32 {
+    let max_days = |offset: &ds::DateOffset| {
+        if offset.wday_offset == ds::WeekDayOffset::None {
+            offset.day_offset.saturating_abs()
+        } else {
+            offset.day_offset.saturating_abs().saturating_add(6)
+        }
+    };
+
+    let max_days = std::cmp::max(max_days(start_offset), max_days(end_offset));
+    // There is no need to look further than the whole supported range
+    (max_days.saturating_add(364) / 365).clamp(0, 10_000) as i32
+}
+
 /// Check if a range between dates of the year only covers days that don't exist on given year
 /// (eg. "Feb 30" or "Apr 31-Apr 31"). Its bounds would otherwise be moved to the closest valid
 /// days, which are in reverse order and would be handled as a range wrapping to the next year.
@@ -344,6 +360,7 @@ impl DateFilter for ds::MonthdayRange {
                 end: (end, end_offset),
             } => {
                 let year = date.year();
+                let margin = offsets_years_margin(start_offset, end_offset);
 
                 if start.has_year() {
                     return dated_range(&(*start, *start_offset), &(*end, *end_offset))
@@ -354,7 +371,7 @@ impl DateFilter for ds::MonthdayRange {
                 {
                     return is_open_from_intervals(
                         date,
-                        (year - 1..=DATE_END.year())
+                        (year - 1 - margin..=DATE_END.year())
                             .filter_map(|y| NaiveDate::from_ymd_opt(y, 2, 29))
                             .map(|d| start_offset.apply(d)..=end_offset.apply(d)),
                     );
@@ -362,11 +379,11 @@ impl DateFilter for ds::MonthdayRange {
 
                 is_open_from_bounds(
                     date,
-                    (year - 1..=year + 1)
+                    (year - 1 - margin..=year + 1 + margin)
                         .filter(|y| !is_empty_on_year(start, end, *y))
                         .filter_map(|y| date_on_year(*start, y, valid_ymd_after))
                         .map(|d| start_offset.apply(d)),
-                    (year - 1..=year + 1)
+                    (year - 1 - margin..=year + 1 + margin)
                         .filter(|y| !is_empty_on_year(start, end, *y))
                         .filter_map(|y| date_on_year(*end, y, valid_ymd_before))
                         .map(|d| end_offset.apply(d)),
@@ -434,12 +451,13 @@ impl DateFilter for ds::MonthdayRange {
                 end: (end, end_offset),
             } => {
                 let year = date.year();
+                let margin = offsets_years_margin(start_offset, end_offset);
 
                 if *start == Date::md(29, Month::February) && *end == Date::md(29, Month::February)
                 {
                     return Some(next_change_from_intervals(
                         date,
-                        (year - 1..=DATE_END.year())
+                        (year - 1 - margin..=DATE_END.year())
                             .filter_map(|y| NaiveDate::from_ymd_opt(y, 2, 29))
                             .map(|d| start_offset.apply(d)..=end_offset.apply(d)),
                     ));
@@ -447,11 +465,11 @@ impl DateFilter for ds::MonthdayRange {
 
                 Some(next_change_from_bounds(
                     date,
-                    (year - 1..=year + 10)
+                    (year - 1 - margin..=year + 10 + margin)
                         .filter(|y| !is_empty_on_year(start, end, *y))
                         .filter_map(|y| date_on_year(*start, y, valid_ymd_after))
                         .map(|d| start_offset.apply(d)),
-                    (year - 1..=year + 10)
+                    (year - 1 - margin..=year + 10 + margin)
                         .filter(|y| !is_empty_on_year(start, end, *y))
                         .filter_map(|y| date_on_year(*end, y, valid_ymd_before))
                         .map(|d| end_offset.apply(d)),
